@@ -61,9 +61,11 @@ def _get(name, real_t, thr, shape=None):
         v = (spne.gen_vorticity_stretching_timestep_euler_forward_pyst_kernel_3d(**kw),
              spne.gen_vorticity_stretching_flux_pyst_kernel_3d(**kw))
     else:
-        mid = np.zeros((3, *shape), dtype=real_t)
+        # the mid-step buffer is one block of a scratch pool (layout "pooled" takes the flux buffer and the fields from the same pool)
+        pool = np.zeros((4, 3, *shape), dtype=real_t)
+        mid = pool[1]
         v = (spne.gen_vorticity_stretching_timestep_ssprk3_pyst_kernel_3d(midstep_buffer_vector_field=mid, **kw),
-             spne.gen_vorticity_stretching_flux_pyst_kernel_3d(**kw), mid)
+             spne.gen_vorticity_stretching_flux_pyst_kernel_3d(**kw), mid, pool)
     _K[key] = v
     return v
 
@@ -89,7 +91,7 @@ def _strategy(tier, name):
                                   st.just(0.0))),  # a zero step / zero viscosity is admissible: the kernel must return the field
             "poison": draw(st.booleans()),
             # memory layout of the field / velocity / work buffers handed to the time-step kernel
-            "layout": draw(st.sampled_from(["contig", "contig", "zslab", "subblock", "fortran"])),
+            "layout": draw(st.sampled_from(["contig", "contig", "zslab", "subblock", "fortran", "pooled"])),
         }
 
     return case()
@@ -110,6 +112,10 @@ def _as_layout(a, layout, nsp):
         return base[(slice(None),) * lead + tuple(slice(1, 1 + n) for n in a.shape[lead:])]
     if layout == "fortran":
         return np.asfortranarray(a)
+    if layout == "pooled":  # stand-alone use: a block of a private pool (the RK3 body takes blocks of the kernel's own pool instead)
+        pool = np.full((3, *a.shape), 77.0, dtype=a.dtype)
+        pool[1] = a
+        return pool[1]
     raise ValueError(layout)
 
 
@@ -186,9 +192,16 @@ def _body(case, ctx):
         elif name == "dif3d_vector":
             ks[0](vector_field=f, diffusion_flux=buf(shape, buf_fill), nu_dt_by_dx2=step)
         else:
+            fluxbuf = buf((3, *shape), buf_fill)
             if name == "stretch_rk3":
                 ks[2][...] = buf_fill
-            ks[0](vorticity_field=f, velocity_field=u, vorticity_stretching_flux_field=buf((3, *shape), buf_fill), dt_by_2_dx=step)
+                if lay == "pooled":
+                    # vorticity, flux and mid-step buffer are blocks of ONE scratch allocation (same owner array, disjoint memory)
+                    pool = ks[3]
+                    pool[0] = f
+                    pool[2] = buf_fill
+                    f, fluxbuf = pool[0], pool[2]
+            ks[0](vorticity_field=f, velocity_field=u, vorticity_stretching_flux_field=fluxbuf, dt_by_2_dx=step)
     if np.ascontiguousarray(u).tobytes() != u0.tobytes():
         raise Violation(f"{name}: velocity field modified by the time-step kernel")
     with ctx.repo_call(f"{name} flux kernel"):
